@@ -28,12 +28,12 @@ theorem parse_no_ub (cfg : PCfg) (bs : Bytes) (w : String) : (parse cfg bs).resu
 theorem parse_fuel_sufficient (cfg : PCfg) (bs : Bytes) : (parse cfg bs).result ≠ .error .fuel :=
   (parse_result_ok cfg bs).not_fuel
 
-/-- Totality: the verdict is success or a `WBXMLError` code. -/
+/-- Totality: the verdict is success or a `WBXMLError` code other than 0 (`WBXML_OK`). -/
 theorem parse_total (cfg : PCfg) (bs : Bytes) :
-    (parse cfg bs).result = .ok () ∨ ∃ c, (parse cfg bs).result = .error (.code c) := by
-  rcases (parse_result_ok cfg bs).cases with ⟨⟨⟩, h, _⟩ | ⟨c, h⟩
+    (parse cfg bs).result = .ok () ∨ ∃ c, c ≠ 0 ∧ (parse cfg bs).result = .error (.code c) := by
+  rcases (parse_result_ok cfg bs).cases with ⟨⟨⟩, h, _⟩ | ⟨c, h, h0⟩
   · exact Or.inl h
-  · exact Or.inr ⟨c, h⟩
+  · exact Or.inr ⟨c, h0, h⟩
 
 /-- A successful run consumed at least four bytes (version, public id, string-table length, one
     tag) and at most the whole input. -/
@@ -61,7 +61,7 @@ theorem parse_consumed_cursor (cfg : PCfg) (bs : Bytes) (h : (parse cfg bs).resu
 /-- An unsuccessful run reports no `endDoc`, a run failing in the header reports nothing. -/
 theorem parse_error_events (cfg : PCfg) (bs : Bytes) (e : Err) (h : (parse cfg bs).result = .error e) :
     (parse cfg bs).events = [] ∨ ∃ cs l, (parse cfg bs).events = [Event.startDoc cs l] := by
-  rcases parse_anatomy cfg bs with ⟨c, _, _, h'⟩ | ⟨s, l, c, _, _, _, h'⟩ | ⟨s, l, ev, s', _, _, h', _⟩
+  rcases parse_anatomy cfg bs with ⟨c, _, _, h', _⟩ | ⟨s, l, c, _, _, _, h', _⟩ | ⟨s, l, ev, s', _, _, h', _⟩
   · exact Or.inl h'
   · exact Or.inr ⟨_, _, h'⟩
   · rw [h'] at h; cases h
@@ -254,7 +254,7 @@ theorem extend_stable (cfg : PCfg) (bs x : Bytes) (e : Nat) (h : rootEnd cfg bs 
 theorem prefix_rejected (cfg : PCfg) (bs : Bytes) (e k : Nat) (h : rootEnd cfg bs = some e) (hk : k < e) :
     (∃ c, (parse cfg (bs.take k)).result = .error (.code c)) ∧
     ((parse cfg (bs.take k)).events = [] ∨ ∃ cs l, (parse cfg (bs.take k)).events = [Event.startDoc cs l]) := by
-  rcases parse_total cfg (bs.take k) with hok | ⟨c, hc⟩
+  rcases parse_total cfg (bs.take k) with hok | ⟨c, _, hc⟩
   · exact absurd hok (take_not_ok h hk)
   · exact ⟨⟨c, hc⟩, parse_error_events cfg _ _ hc⟩
 
@@ -270,7 +270,7 @@ theorem prefix_rejected_of_ok (cfg : PCfg) (bs : Bytes) (h : (parse cfg bs).resu
 theorem header_truncation_rejected (cfg : PCfg) (bs : Bytes) (s : PState) (l : Lang) (k : Nat)
     (h : parseHeader cfg bs = .ok (s, l)) (hk : k < bs.length - s.rest.length) :
     (∃ c, (parse cfg (bs.take k)).result = .error (.code c)) ∧ (parse cfg (bs.take k)).events = [] := by
-  rcases parse_anatomy cfg (bs.take k) with ⟨c, _, h1, h2⟩ | ⟨s', l', c, hh, _⟩ | ⟨s', l', _, _, hh, _⟩
+  rcases parse_anatomy cfg (bs.take k) with ⟨c, _, h1, h2, _⟩ | ⟨s', l', c, hh, _⟩ | ⟨s', l', _, _, hh, _⟩
   · exact ⟨⟨c, h1⟩, h2⟩
   · exact absurd hh (header_take_not_ok h hk _)
   · exact absurd hh (header_take_not_ok h hk _)
@@ -322,13 +322,13 @@ theorem prefix_before_consumed_may_be_accepted :
   intro h
   have h1 : (parse demoCfg [3, 2, 0x6A, 0, 5, 0x43, 6, 1]).result = .ok () := by
     have : (parse demoCfg [3, 2, 0x6A, 0, 5, 0x43, 6, 1]).result.toBool = true := by decide +kernel
-    rcases parse_total demoCfg [3, 2, 0x6A, 0, 5, 0x43, 6, 1] with h | ⟨c, h⟩
+    rcases parse_total demoCfg [3, 2, 0x6A, 0, 5, 0x43, 6, 1] with h | ⟨c, _, h⟩
     · exact h
     · rw [h] at this; cases this
   have h2 : (parse demoCfg [3, 2, 0x6A, 0, 5, 0x43, 6, 1]).consumed = 8 := by decide +kernel
   have h3 : (parse demoCfg ([3, 2, 0x6A, 0, 5, 0x43, 6, 1].take 5)).result.toBool = true := by decide +kernel
   have := h demoCfg [3, 2, 0x6A, 0, 5, 0x43, 6, 1] 5 h1 (by rw [h2]; decide)
-  rcases parse_total demoCfg ([3, 2, 0x6A, 0, 5, 0x43, 6, 1].take 5) with h4 | ⟨c, h4⟩
+  rcases parse_total demoCfg ([3, 2, 0x6A, 0, 5, 0x43, 6, 1].take 5) with h4 | ⟨c, _, h4⟩
   · exact this h4
   · rw [h4] at h3; cases h3
 
